@@ -103,9 +103,16 @@ func buildVal(v valDesc) *pb.TypedValue {
 		return &pb.TypedValue{Value: &pb.TypedValue_JsonIetfVal{JsonIetfVal: []byte(v.V)}}
 	case "ascii":
 		return &pb.TypedValue{Value: &pb.TypedValue_AsciiVal{AsciiVal: v.V}}
-	case "decimal":
-		i, _ := strconv.ParseInt(v.V, 10, 64)
-		return &pb.TypedValue{Value: &pb.TypedValue_DecimalVal{DecimalVal: &pb.Decimal64{Digits: i, Precision: 2}}}
+	case "decimal": // "digits/precision"
+		d, p := v.V, "2"
+		for i := 0; i < len(v.V); i++ {
+			if v.V[i] == '/' {
+				d, p = v.V[:i], v.V[i+1:]
+			}
+		}
+		i, _ := strconv.ParseInt(d, 10, 64)
+		pr, _ := strconv.ParseUint(p, 10, 32)
+		return &pb.TypedValue{Value: &pb.TypedValue_DecimalVal{DecimalVal: &pb.Decimal64{Digits: i, Precision: uint32(pr)}}}
 	case "leaflist":
 		sa := &pb.ScalarArray{}
 		for _, c := range v.V {
@@ -370,33 +377,48 @@ func (d *cacheDrv) apply(o cacheOp) {
 
 var cacheArms = []string{"int", "uint", "bool", "string", "double", "float", "bytes", "json", "json_ietf", "ascii", "decimal", "leaflist"}
 
-func randVal(r *rand.Rand) valDesc {
+func randVal(r *rand.Rand) valDesc { return randValFav(r, "") }
+
+// randValFav: when fav is set most values use that arm, so that a leaf is updated again and again
+// with (nearly) equal values of one type.
+func randValFav(r *rand.Rand, fav string) valDesc {
 	arm := cacheArms[r.Intn(len(cacheArms))]
-	if r.Intn(3) > 0 {
+	if fav != "" && r.Intn(10) < 7 {
+		arm = fav
+	} else if r.Intn(3) > 0 {
 		arm = []string{"int", "string"}[r.Intn(2)] // few arms, few payloads: equal values are frequent
 	}
+	// a few payloads per arm, two of them "nearly equal" (equal after a lossy conversion, or
+	// the same number in another encoding): a comparison that is too coarse shows up
 	k := r.Intn(3)
 	switch arm {
-	case "int", "uint", "decimal":
-		return valDesc{arm, strconv.Itoa(k + 1)}
+	case "int":
+		return valDesc{arm, []string{"1", "9007199254740992", "9007199254740993", "2"}[r.Intn(4)]}
+	case "uint":
+		return valDesc{arm, []string{"1", "18446744073709551614", "18446744073709551615", "2"}[r.Intn(4)]}
+	case "decimal":
+		return valDesc{arm, []string{"1234567890/3", "1234567891/3", "120/1", "12/0"}[r.Intn(4)]}
 	case "bool":
 		return valDesc{arm, strconv.FormatBool(k%2 == 0)}
-	case "double", "float":
-		return valDesc{arm, []string{"1.5", "2.25", "3"}[k]}
+	case "double":
+		return valDesc{arm, []string{"1.5", "1.5000000000000002", "3"}[k]}
+	case "float":
+		return valDesc{arm, []string{"1.5", "1.5000001", "3"}[k]}
 	case "bytes":
-		return valDesc{arm, []string{"00", "ff01", "ab"}[k]}
+		return valDesc{arm, []string{"00", "0000", "ab"}[k]}
 	case "json", "json_ietf":
 		return valDesc{arm, []string{`{"a":1}`, `"x"`, `[1,2]`}[k]}
 	case "leaflist":
 		return valDesc{arm, []string{"ab", "abc", "b"}[k]}
 	}
-	return valDesc{arm, []string{"x", "y", "z"}[k]}
+	return valDesc{arm, []string{"x", "X", "x ", "y"}[r.Intn(4)]}
 }
 
 type cacheGen struct {
 	r       *rand.Rand
 	targets []string // all names ever used
 	shared  int
+	fav     string // favourite value arm of this scenario
 	w       []int // weights of the op kinds, see cacheProfiles
 	tsDense bool  // timestamps close together (many equal / out-of-order)
 }
@@ -510,7 +532,7 @@ func (g *cacheGen) op(now *int64) cacheOp {
 			pre.Shared += 10 * (1 + indexOf(g.targets, t))
 			p = pathDesc{Elems: []elemDesc{{Name: []string{"x", "y", "z"}[r.Intn(3)]}}}
 		}
-		return cacheOp{Op: "GnmiUpdate", T: t, Ts: ts, Now: *now, Prefix: pre, Ups: []updDesc{{p, randVal(r)}}}
+		return cacheOp{Op: "GnmiUpdate", T: t, Ts: ts, Now: *now, Prefix: pre, Ups: []updDesc{{p, randValFav(r, g.fav)}}}
 	case x < 48: // multi
 		pre, _ := g.dataPath(t, false)
 		pre.Elems, pre.Element = nil, nil
@@ -524,7 +546,7 @@ func (g *cacheGen) op(now *int64) cacheOp {
 			if len(p.Elems) == 0 && len(p.Element) == 0 {
 				p.Elems = []elemDesc{{Name: "a"}}
 			}
-			o.Ups = append(o.Ups, updDesc{p, randVal(r)})
+			o.Ups = append(o.Ups, updDesc{p, randValFav(r, g.fav)})
 		}
 		for i := 0; i < nd; i++ {
 			_, p := g.dataPath(t, true)
@@ -541,7 +563,7 @@ func (g *cacheGen) op(now *int64) cacheOp {
 		}
 		o := cacheOp{Op: "GnmiUpdate", T: t, Ts: ts, Now: *now, Atomic: true, Prefix: pre}
 		for i, k := 0, r.Intn(4); i < k; i++ {
-			o.Ups = append(o.Ups, updDesc{pathDesc{Elems: []elemDesc{{Name: []string{"x", "y"}[r.Intn(2)]}}}, randVal(r)})
+			o.Ups = append(o.Ups, updDesc{pathDesc{Elems: []elemDesc{{Name: []string{"x", "y"}[r.Intn(2)]}}}, randValFav(r, g.fav)})
 		}
 		if r.Intn(12) == 0 {
 			o.Dels = append(o.Dels, pathDesc{Elems: []elemDesc{{Name: "x"}}})
@@ -558,9 +580,9 @@ func (g *cacheGen) op(now *int64) cacheOp {
 		return cacheOp{Op: "GnmiUpdate", T: t, Ts: ts, Now: *now, Prefix: &pathDesc{Target: t}}
 	case x < 74:
 		if r.Intn(2) == 0 {
-			return cacheOp{Op: "GnmiUpdate", Ts: ts, Now: *now, Ups: []updDesc{{pathDesc{Elems: []elemDesc{{Name: "a"}}}, randVal(r)}}}
+			return cacheOp{Op: "GnmiUpdate", Ts: ts, Now: *now, Ups: []updDesc{{pathDesc{Elems: []elemDesc{{Name: "a"}}}, randValFav(r, g.fav)}}}
 		}
-		return cacheOp{Op: "GnmiUpdate", Ts: ts, Now: *now, Prefix: &pathDesc{Target: "nosuch"}, Ups: []updDesc{{pathDesc{Elems: []elemDesc{{Name: "a"}}}, randVal(r)}}}
+		return cacheOp{Op: "GnmiUpdate", Ts: ts, Now: *now, Prefix: &pathDesc{Target: "nosuch"}, Ups: []updDesc{{pathDesc{Elems: []elemDesc{{Name: "a"}}}, randValFav(r, g.fav)}}}
 	case x < 78:
 		return cacheOp{Op: "Sync", T: t, Now: *now}
 	case x < 81:
@@ -634,6 +656,9 @@ func cacheRandom(args []string) error {
 			all = []string{"dev1", "dev10"}
 		}
 		g := &cacheGen{r: r, targets: all, w: weights, tsDense: *profile == "ts" || r.Intn(3) == 0}
+		if r.Intn(2) == 0 {
+			g.fav = cacheArms[r.Intn(len(cacheArms))]
+		}
 		sc := cacheScenario{Sc: i, Thr: []int64{0, 0, 3, 10}[r.Intn(4)], Ed: r.Intn(3) > 0, Targets: all[:1+r.Intn(len(all))]}
 		d := &cacheDrv{w: ss.ws[i%len(ss.ws)]}
 		d.start(sc)
